@@ -111,25 +111,27 @@ def isMwLive (o : Order) : Bool :=
   | some s => Gen.middlewareLiveStatus.contains s
   | none => false
 
+/-- one order of the matching loop: (world, the loop's private copy of the traded dicts) -/
+def matchStep (mid : Nat) (recheck : Bool) (acc : World × List (Nat × Rat × List (Rat × Rat))) (o0 : Order) :
+    World × List (Nat × Rat × List (Rat × Rat)) :=
+  let (w, lk) := acc
+  let book := (w.market! mid).book.getD {}
+  let o := w.order! o0.id
+  if recheck && !isMwLive o then (w, lk)
+  else
+    let traded := ((lk.find? fun e => e.1 = o.sel ∧ e.2.1 = o.hc).map (·.2.2)).getD []
+    -- runner_traded[0] is the analytics' runner (its SP is read by _process_sp through market_book)
+    let sp := ((runnerOf book o.sel o.hc).bind (·.sp))
+    let r := o.sim.call book.view sp traded (w.client! (o.client.getD 0)).minBspLiability
+    let w := w.modifyOrder o.id fun x => { x with sim := r.1 }
+    let w := if r.2.2 then w.orderExecutionComplete o.id else w
+    (w, lk.map fun e => if e.1 = o.sel ∧ e.2.1 = o.hc then (e.1, e.2.1, r.2.1) else e)
+
 /-- run `order.simulated(market_book, runner_traded)` for the orders in `sorted`, threading one
-    copy of the traded dicts (`_lookup`) through them -/
+    copy of the traded dicts (`_lookup`) through them; the copy is dropped afterwards -/
 def matchOrders (w : World) (mid : Nat) (sorted : List Order) (recheck : Bool) : World :=
-  let m := w.market! mid
-  let book := m.book.getD {}
-  let lookup : List (Nat × Rat × List (Rat × Rat)) := m.analytics.map fun a => (a.sel, a.hc, a.traded)
-  let (w, _) := sorted.foldl (fun (acc : World × List (Nat × Rat × List (Rat × Rat))) o0 =>
-    let (w, lk) := acc
-    let o := w.order! o0.id
-    if recheck && !isMwLive o then (w, lk)
-    else
-      let traded := ((lk.find? fun e => e.1 = o.sel ∧ e.2.1 = o.hc).map (·.2.2)).getD []
-      -- runner_traded[0] is the analytics' runner (its SP is read by _process_sp through market_book)
-      let sp := ((runnerOf book o.sel o.hc).bind (·.sp))
-      let (sim', traded', completed) := o.sim.call book.view sp traded (w.client! (o.client.getD 0)).minBspLiability
-      let w := w.modifyOrder o.id fun x => { x with sim := sim' }
-      let w := if completed then w.orderExecutionComplete o.id else w
-      (w, lk.map fun e => if e.1 = o.sel ∧ e.2.1 = o.hc then (e.1, e.2.1, traded') else e)) (w, lookup)
-  w
+  let lookup : List (Nat × Rat × List (Rat × Rat)) := (w.market! mid).analytics.map fun a => (a.sel, a.hc, a.traded)
+  (sorted.foldl (matchStep mid recheck) (w, lookup)).1
 
 /-- `SimulatedMiddleware._process_simulated_orders` -/
 def mwProcessSimulatedOrders (w : World) (mid : Nat) : World :=
